@@ -308,6 +308,38 @@ impl<K: Copy + Ord, V> IndexedPriorityQueue<K, V> {
     }
 }
 
+#[cfg(nexosim_verif)]
+impl<K: Copy + Ord, V: Clone> IndexedPriorityQueue<K, V> {
+    /// Raw layout, for the verification harness: heap items as `(key, epoch,
+    /// slab_idx)`, slab nodes as `Ok((value, heap_idx))` or `Err(next_free)`,
+    /// the head of the free list and the next epoch.
+    #[allow(clippy::type_complexity)]
+    pub(crate) fn verif_raw(
+        &self,
+    ) -> (
+        Vec<(K, u64, usize)>,
+        Vec<Result<(V, usize), Option<usize>>>,
+        Option<usize>,
+        u64,
+    ) {
+        let heap = self
+            .heap
+            .iter()
+            .map(|item| (item.key.key, item.key.epoch, item.slab_idx))
+            .collect();
+        let slab = self
+            .slab
+            .iter()
+            .map(|node| match node {
+                Node::HeapNode(n) => Ok((n.value.clone(), n.heap_idx)),
+                Node::FreeNode(n) => Err(n.next),
+            })
+            .collect();
+
+        (heap, slab, self.first_free_node, self.next_epoch)
+    }
+}
+
 impl<K: Copy + Ord, V> Default for IndexedPriorityQueue<K, V> {
     fn default() -> Self {
         Self::new()
